@@ -1544,6 +1544,30 @@ impl World<Tok> {
         self.check_reg(out, r, &op);
     }
 
+    /// `let e = m.get_mut((i, j))?; *e = h(*e)`: in-place update of one element (History operation `updAt`): the old
+    /// element is consumed, `h(old)` takes its place
+    pub fn bump(&mut self, out: &mut Out, r: usize, i: usize, j: usize) {
+        let op = format!("bump {r} {i} {j}");
+        out.announce(&op);
+        let m = self.regs[r].as_mut().unwrap();
+        let res = catch(|| m.get_mut((i, j)).map(|e| { let old = e.show(); *e = <Tok as Elem>::make(format!("h({old})")); }));
+        let (order, mut rf) = self.refs[r].take().unwrap();
+        let valid = i < rf.nrows && j < rf.ncols;
+        if valid { let old = rf.rows[i][j].clone(); rf.rows[i][j] = format!("h({old})"); }
+        self.refs[r] = Some((order, rf));
+        let m = self.regs[r].as_ref().unwrap();
+        let obs = match res {
+            None => "panic".to_string(),
+            Some(Ok(())) => format!("ok | {}", st_str(m)),
+            Some(Err(e)) => format!("err {} | {}", err_name(e), st_str(m)),
+        };
+        if obs.starts_with("ok") != valid {
+            out.oracle_fail(&format!("{op}: expected {}, implementation gave `{obs}`", if valid { "Ok" } else { "Err(IndexOutOfBounds)" }));
+        }
+        out.observe(&obs);
+        self.check_reg(out, r, &op);
+    }
+
     pub fn display(&mut self, out: &mut Out, r: usize) -> Option<String> {
         let op = format!("display {r}");
         out.announce(&op);
